@@ -118,7 +118,9 @@ def _strategies():
             "cwd": draw(st.sampled_from(CWD_KINDS)),
             "spell": {k: draw(st.sampled_from(SPELLS)) for k in ("root", "out", "lookup")},
             "proc": draw(st.sampled_from(["fresh"] * 5 + ["second"])),
-            "warm": draw(st.sampled_from(TARGETS)),
+            # what the interpreter of a "second" run did before: another target on the same definitions, or the same target on
+            # an EARLIER REVISION of the namespace (same type names and versions, other bodies) kept at another location
+            "warm": draw(st.sampled_from(TARGETS + ["revision", "revision"])),
         }
 
     @st.composite
@@ -309,9 +311,10 @@ CONFIG_YAML = (
 )
 
 
-def build_argv(u: dict, root: int, target: str, opts: dict, e: dict, lay: Layout, outdir: typing.Optional[pathlib.Path] = None) -> typing.List[str]:
+def build_argv(u: dict, root: int, target: str, opts: dict, e: dict, lay: Layout, outdir: typing.Optional[pathlib.Path] = None,
+               indir: typing.Optional[pathlib.Path] = None) -> typing.List[str]:
     cwd = lay.cwd(e)
-    ind = lay.indir(e)
+    ind = indir if indir is not None else lay.indir(e)
     out = outdir if outdir is not None else lay.outdir(e)
     argv = ["--target-language", target, "--experimental-languages", "--allow-unregulated-fixed-port-id"]
     argv += ["--outdir", spell(out, cwd, e["spell"]["out"])]
@@ -353,7 +356,37 @@ def ensure_inputs(u: dict, lay: Layout, e: dict) -> None:
             (ind / f"cfg_{t}.yaml").write_text(CONFIG_YAML.format(lang=t))
 
 
-RUNS = {"fresh": 0, "second": 0}
+def revision_of(u: dict) -> dict:
+    """
+    An earlier revision of the same namespaces: every type keeps its name, version, kind, port-ID, sealing and extent, but its
+    body is flattened -- references to other types (also inside arrays) become uint8, booleans become uint8 and vice versa -- so
+    the set of files is the same while dependencies and needed standard headers differ.  What a process generated from it
+    earlier must not show in a later run on the current definitions.
+    """
+    v = copy.deepcopy(u)
+
+    def flat(t: dict) -> dict:
+        if t["t"] in ("farr", "varr"):
+            return dict(t, elem=flat(t["elem"]))
+        if t["t"] == "ref":
+            return {"t": "uint", "bits": 8, "cast": "saturated"}
+        if t["t"] == "bool":
+            return {"t": "uint", "bits": 8, "cast": "saturated"}
+        if t["t"] == "uint" and t.get("bits") == 8:
+            return {"t": "bool"}
+        return t
+
+    for r in v["roots"]:
+        for td in r["types"]:
+            bodies = [td["body"]] if td["kind"] != "service" else [td["body"]["request"], td["body"]["response"]]
+            for b in bodies:
+                for a in b["attrs"]:
+                    if a["k"] == "field":
+                        a["type"] = flat(a["type"])
+    return v
+
+
+RUNS = {"fresh": 0, "second": 0, "second_after_revision": 0, "revision_rejected_by_front_end": 0}
 _RUNS_LOCK = threading.Lock()
 
 
@@ -429,7 +462,28 @@ def run_once(u: dict, root: int, target: str, opts: dict, e: dict, lay: Layout) 
             shutil.rmtree(warm_out)
         warm_out.parent.mkdir(parents=True, exist_ok=True)
         wt = e["warm"]
-        warm_argv = build_argv(u, root, wt, {}, e, lay, outdir=warm_out)
+        if wt == "revision":
+            rev_in = lay.base / "W" / "rev-inputs"
+            if rev_in.exists():
+                shutil.rmtree(rev_in)
+            from .. import dsdlgen
+
+            rev = revision_of(u)
+            dsdlgen.materialise(rev, rev_in)
+            for t_ in ("c", "cpp"):
+                (rev_in / f"cfg_{t_}.yaml").write_text(CONFIG_YAML.format(lang=t_))
+            try:
+                dsdlgen.read(rev, rev_in)
+                warm_argv = build_argv(rev, root, target, opts, e, lay, outdir=warm_out, indir=rev_in)
+                with _RUNS_LOCK:
+                    RUNS["second_after_revision"] += 1
+            except Exception:  # the flattened bodies are not a valid namespace (e.g. bit-compatibility of minor versions)
+                with _RUNS_LOCK:
+                    RUNS["revision_rejected_by_front_end"] += 1
+                wt = target
+                warm_argv = build_argv(u, root, wt, {}, e, lay, outdir=warm_out)
+        else:
+            warm_argv = build_argv(u, root, wt, {}, e, lay, outdir=warm_out)
         job = {"t": e["t"], "runs": [{"argv": warm_argv, "cwd": str(cwd)}, {"argv": argv, "cwd": str(cwd)}]}
         env = dict(os.environ)
         env.pop("DSDL_INCLUDE_PATH", None)
@@ -441,11 +495,14 @@ def run_once(u: dict, root: int, target: str, opts: dict, e: dict, lay: Layout) 
         if p.returncode != 0:
             raise core.HarnessError(f"in-process worker died rc={p.returncode}: {p.stderr[-1500:]}")
         res = json.loads(p.stdout.strip().splitlines()[-1])
-        if res[0]["rc"] != 0:
+        if res[0]["rc"] != 0 and e["warm"] == "revision":
+            with _RUNS_LOCK:  # the observed run is still a second run in one interpreter
+                RUNS["revision_warmup_failed"] = RUNS.get("revision_warmup_failed", 0) + 1
+        elif res[0]["rc"] != 0:
             raise core.HarnessError(f"warm-up run failed: nnvg {' '.join(warm_argv)}: {res[0]['err'][-800:]}")
         rc, se = res[1]["rc"], res[1]["err"]
         shutil.rmtree(warm_out, ignore_errors=True)
-        how = (f"second run in one interpreter (after a {wt} run into {warm_out}): PYTHONHASHSEED={e['hs']} "
+        how = (f"second run in one interpreter (after {'a run on an earlier revision of the namespace (vf.props.c07.revision_of)' if e['warm'] == 'revision' and wt == 'revision' else 'a ' + wt + ' run'} into {warm_out}): PYTHONHASHSEED={e['hs']} "
                f"fake-clock={e['t']!r} cwd={cwd} nnvg " + " ".join(argv))
     files = tool.tree_files(out) if out.exists() else {}
     if out.exists():
